@@ -436,6 +436,7 @@ func genAlign(c *Ctx, prop string) {
 	if prop == "C10" {
 		return
 	}
+	alignExtras(c, prop)
 	// shipped matrices
 	for i := 0; i < c.n(150); i++ {
 		name := shippedNames[c.rng.Intn(len(shippedNames))]
@@ -567,6 +568,7 @@ func genC12(c *Ctx) {
 		c.add(Case{Op: "su.rc - " + hx(src), Impl: strings.Replace(got, "PANIC", "P", 1), Kind: "rc-byte", Nontrivial: true, Oracle: oracle,
 			Note: fmt.Sprintf("ReverseComplement(nil, [%d])", b)})
 	}
+	sequtilExtras12(c)
 	// arbitrary byte strings (incl. multi-byte UTF-8): both functions must agree, panic exactly on a foreign byte
 	for i := 0; i < c.n(400); i++ {
 		var s []byte
@@ -692,6 +694,7 @@ func genC12(c *Ctx) {
 }
 
 func genC13(c *Ctx) {
+	sequtilExtras13(c)
 	for b := 0; b < 256; b++ {
 		got := sequtil.Ntoi(byte(b))
 		want := -1
@@ -806,6 +809,7 @@ func stdAmino(cod []byte) byte {
 }
 
 func genC14(c *Ctx) {
+	sequtilExtras14(c)
 	// all 64 codons x 8 case patterns
 	for i := 0; i < 64; i++ {
 		for cs := 0; cs < 8; cs++ {
@@ -1063,6 +1067,7 @@ func runTrieHistory(c *Ctx, ops []string, probes []string, kind string) {
 }
 
 func genC15(c *Ctx) {
+	trieExtras(c)
 	// exhaustive histories over {a,b}, strings <= 2 (thorough 3), depth <= 3 (thorough 4)
 	var strs []string
 	maxS, depth := 2, 3
@@ -1307,6 +1312,7 @@ func u64s(v []uint64) string {
 }
 
 func genC17(c *Ctx) {
+	mashExtras(c)
 	randDNA := func(n int) []byte {
 		s := c.bytesFrom([]byte("ACGT"), n)
 		for i := range s {
@@ -1674,7 +1680,7 @@ func genTrees(c *Ctx, stops bool) {
 	c.add(Case{Kind: "star", Nontrivial: true, Oracle: o, Note: "star with 19999 children"})
 }
 
-func genC19(c *Ctx) { genTrees(c, false) }
+func genC19(c *Ctx) { genTrees(c, false); arenaTrees(c) }
 
 func genC18Iterators(c *Ctx) {
 	genTrees(c, true)
@@ -1997,6 +2003,7 @@ func splitSpace(b []byte) [][]byte {
 }
 
 func genC20(c *Ctx) {
+	matrixExtras(c)
 	// ReadNCBI on rendered tables
 	for i := 0; i < c.n(300); i++ {
 		t := c.ncbiTable()
